@@ -1086,8 +1086,9 @@ class Cli(Relation):
             sel_i = inp["ids"]
             if cmd == 2 and req_i is not None and not p.get("from_gts"):
                 req_i = req_i + [p["target"]]
-            if cmd == 2 and p.get("from_gts") and req_i is not None:
-                # --from-gts: the variants of the target haplotype are part of the request
+            if cmd == 2 and p.get("from_gts") and req_i:
+                # --from-gts: the target and the variants of a target haplotype are part of the request
+                # (an empty file restricts nothing: DESIGN.md section 10)
                 tv = [v[0] for h in ds["haps"] if h["id"] == p["target"] for v in h["vars"]]
                 req_i = req_i + tv + [p["target"]]
         # messages: only needed to judge "reported", i.e. when the comparison run without unknown entries exists
